@@ -200,9 +200,6 @@ def xml_to_node(el):
     tag = _local(el.tag)
     kids = list(el)
     names = [_local(c.tag) for c in kids]
-    if any(_local(x.tag) in ("chr", "begChr", "endChr") for c in kids if not _local(c.tag).endswith("Pr")
-           for x in c.iter() if x is not c and _local(c.tag) in ()):
-        raise Unsupported("attr")
     if tag == "r":
         text = ""
         for c in kids:
@@ -439,10 +436,7 @@ def _worker(inp, out):
                     else:
                         inner = _strip_dollars(rest)
                         got[int(m.group(1))] = {"st": "ok", "o": lex(inner if inner is not None else "?" + rest, known)}
-            printed = sorted(f.latex for f in doc.formulas)
-            want = sorted("".join(atom_char(a) if a.startswith("U+") else a for a in []) for _ in [])
-            del want
-            listed = sorted(x for x in printed)
+            listed = sorted(f.latex for f in doc.formulas)
             shown = sorted(_strip_dollars(m.group(2)) or "" for m in map(_PARA.match, doc.full_text.split("\n"))
                            if m and m.group(2))
             if listed != shown:      # DocxContent.formulas must list exactly the printed formulas
